@@ -87,12 +87,10 @@ def loop_image(row):
 
 def distances(loop_time, tier):
     """Distance (T-states) of the next tape edge from the moment the loop is entered."""
-    if tier == 'quick':
-        ds = sorted({k * loop_time + e for k in range(4) for e in (-1, 0, 1)} |
-                    {k * loop_time + loop_time // 2 for k in range(2)})
-    else:
-        ds = list(range(-1, 3 * loop_time + 2))             # every alignment of the edge inside three loop periods
-    return ds + [FAR]
+    ds = {k * loop_time + e for k in range(4) for e in (-1, 0, 1)}
+    if tier != 'quick':
+        ds |= set(range(-1, 2 * loop_time + 2))             # every alignment of the edge inside two loop periods
+    return sorted(ds) + [FAR]
 
 
 def loop_regs(row, v, ear_bit, carry):
@@ -212,12 +210,18 @@ def loop_units(tier):
     from skoolkit.loadsample import ACCELERATORS
     for name in sorted(ACCELERATORS):
         row = ACCELERATORS[name]
-        ears = (0, 1) if row[7] >= 0 else (0,)
+        # EAR phase: for loops that compare the sample with a register bit, that bit (quick) and also the
+        # tape polarity (thorough); for the polarity-sensitive loops (no EAR register) the tape polarity
+        if row[7] < 0:
+            phases = [(0, 0), (0, 1)]
+        elif tier == 'quick':
+            phases = [(0, 0), (1, 0)]
+        else:
+            phases = [(0, 0), (1, 0), (0, 1), (1, 1)]
         for dist in distances(row[5], tier):
-            for ear_bit in ears:
-                for pol in (0, 1):
-                    for carry in (0, 1):
-                        yield name, dist, ear_bit, pol, carry
+            for ear_bit, pol in phases:
+                for carry in (0, 1):
+                    yield name, dist, ear_bit, pol, carry
 
 
 # A defect in the C simulator can be a memory-safety error that kills the process.  Loop-level work
@@ -509,7 +513,7 @@ def tzx_from_tap(tap, extra_blocks):
     return bytes(out)
 
 
-def turbo_block(payload, pilot=2100, sync1=650, sync2=720, zero=800, one=1600, npilot=2000):
+def turbo_block(payload, pilot=2100, sync1=650, sync2=720, zero=800, one=1600, npilot=3600):
     data = bytes([0xFF]) + payload
     p = 0
     for b in data:
@@ -552,36 +556,56 @@ OPT_ALTS = dict(accelerator=['none', 'rom', 'speedlock', 'alkatraz,rom'], dec_a=
                 polarity=[1], first_edge=[1000])
 NEUTRAL = ('accelerator', 'dec_a', 'pause', 'python')       # must not change anything at all
 SCRATCH = ('fast_load', 'cmio', 'polarity', 'first_edge')   # may change scratch state only
+OPT_NAMES = dict(accelerator='accelerator', dec_a='accelerate-dec-a', pause='pause', fast_load='fast-load', cmio='cmio', python='python',
+                 polarity='polarity', first_edge='first-edge')
+SNAP_FIELDS = ('a', 'f', 'bc', 'de', 'hl', 'a2', 'f2', 'bc2', 'de2', 'hl2', 'ix', 'iy', 'sp', 'i', 'r', 'pc', 'border', 'iff1', 'iff2', 'im',
+               'tstates', 'out7ffd', 'outfffd', 'outfe')
 
 
 def opt_args(o):
     a = []
-    names = dict(accelerator='accelerator', dec_a='accelerate-dec-a', pause='pause', fast_load='fast-load', cmio='cmio', python='python',
-                 polarity='polarity', first_edge='first-edge')
     for k, v in o.items():
         if v != OPT_DEFAULT[k]:
-            a += ['-c', '{}={}'.format(names[k], v)]
+            a += ['-c', '{}={}'.format(OPT_NAMES[k], v)]
     return a
 
 
-def load_tape(t, o, d, tag):
-    """tap2sna.main on tape t with options o.  Returns (snapshot dict or None, message)."""
+def optid(o):
+    return ','.join('{}={}'.format(k, v) for k, v in o.items() if v != OPT_DEFAULT[k]) or 'default'
+
+
+def load_tape(t, o, d):
+    """tap2sna.main on tape t with options o.  Returns (snapshot dict or None, stdout / message, argv)."""
+    import skoolkit.tap2sna as t2s
     from skoolkit.snapshot import Snapshot
-    out = os.path.join(d, 'o-{}.szx'.format(tag))
+    out = os.path.join(d, 'o.szx')
     if os.path.exists(out):
         os.remove(out)
     a = ['--start', t['start'], '-c', 'timeout=600']
     if t['machine'] == '128':
         a += ['-c', 'machine=128']
     a += opt_args(o) + [t['tape'], out]
-    with core.watchdog(900, 'tap2sna ' + ' '.join(str(x) for x in a)):
-        r = tools.run_tool('tap2sna', a)
+    # tap2sna does not store the simulator's clock in the snapshot (get_state(simulator, False)); the
+    # property speaks of the T-state position, so it is read off the simulator by a harness-side wrapper
+    cap = {}
+    orig = t2s.get_state
+
+    def spy(simulator, *args):
+        cap['T'] = int(simulator.registers[25])
+        return orig(simulator, *args)
+    t2s.get_state = spy
+    try:
+        with core.watchdog(1200, 'tap2sna ' + ' '.join(str(x) for x in a)):
+            r = tools.run_tool('tap2sna', a)
+    finally:
+        t2s.get_state = orig
     if r.rc or not os.path.isfile(out):
         return None, 'tap2sna failed: {} {}'.format(r.exc, r.err[-200:]), a
     s = Snapshot.get(out)
-    snap = {f: getattr(s, f) for f in ('a', 'f', 'bc', 'de', 'hl', 'a2', 'f2', 'bc2', 'de2', 'hl2', 'ix', 'iy', 'sp', 'i', 'r', 'pc',
-                                        'border', 'iff1', 'iff2', 'im', 'tstates', 'out7ffd', 'outfffd', 'outfe')}
+    snap = {f: getattr(s, f) for f in SNAP_FIELDS}
+    snap['memptr'] = s.memptr
     snap['ay'] = tuple(s.ay)
+    snap['simulator_T'] = cap.get('T')
     snap['ram'] = bytes(s.ram(-1))
     snap['stopped_at_start'] = 'Simulation stopped (PC at start address)' in r.out
     return snap, r.out, a
@@ -606,44 +630,71 @@ def loaded_regions(t):
     return out
 
 
-def tape_configs(tier, tape):
-    d = 2 if tier == 'quick' else 3
-    for k, o in core.deviations(OPT_DEFAULT, OPT_ALTS, d):
-        if tier == 'quick' and o['python'] and (not o['fast_load'] or o['cmio']) and o['accelerator'] == 'none':
-            continue
-        yield k, o
+def full_product():
+    import itertools
+    names = list(OPT_DEFAULT)
+    vals = [[OPT_DEFAULT[n]] + OPT_ALTS[n] for n in names]
+    for combo in itertools.product(*vals):
+        o = dict(zip(names, combo))
+        yield sum(1 for n in names if o[n] != OPT_DEFAULT[n]), o
 
 
-def _key(o):
-    return tuple(o[k] for k in SCRATCH)
+def tape_plan(tier):
+    """[(tape name, bound description, iterator of option dicts)]"""
+    if tier == 'quick':
+        return [(t, 2) for t in ('k48', 'k48clear', 'turbo')]
+    return [('k48', 8), ('turbo', 8), ('k48clear', 2), ('k128', 2)]
 
 
-def tape_groups(tier, tape):
-    """Configurations grouped by the options that may legitimately change scratch state."""
-    groups = {}
-    for k, o in tape_configs(tier, tape):
-        groups.setdefault(_key(o), []).append(o)
-    return [groups[k] for k in groups]
+def tape_configs(d):
+    if d >= len(OPT_DEFAULT):
+        return [o for k, o in sorted(full_product(), key=lambda x: x[0])]
+    return [o for k, o in core.deviations(OPT_DEFAULT, OPT_ALTS, d)]
+
+
+def tape_work(tier):
+    """Work items (tape, reference options, options to compare with it): configurations are grouped by
+    the options that may legitimately change scratch state; the group's member with default
+    accelerator / dec-a / pause / python is its reference.  Big groups are cut into chunks."""
+    work = []
+    for tname, d in tape_plan(tier):
+        groups = {}
+        for o in tape_configs(d):
+            groups.setdefault(tuple(o[k] for k in SCRATCH), []).append(o)
+        for key, members in groups.items():
+            ref = dict(OPT_DEFAULT, **dict(zip(SCRATCH, key)))
+            rest = [o for o in members if o != ref]
+            if ref not in members:
+                members = [ref] + members
+            if not rest:
+                work.append((tname, ref, []))
+            for j in range(0, len(rest), 5):
+                work.append((tname, ref, rest[j:j + 5]))
+    return work
 
 
 def cmp_full(ref, got):
     out = []
     for k in ref:
+        if k == 'stopped_at_start':
+            continue
         if k == 'ram':
             if ref[k] != got[k]:
                 bad = [i for i in range(len(ref[k])) if ref[k][i] != got[k][i]]
-                out.append('ram differs in {} byte(s), first at offset {} ({} / {})'.format(len(bad), bad[0], ref[k][bad[0]], got[k][bad[0]]))
+                out.append('ram differs in {} byte(s), first at offset {} ({} / reference {})'.format(len(bad), bad[0], got[k][bad[0]], ref[k][bad[0]]))
         elif ref[k] != got[k]:
             out.append('{}={} (reference {})'.format(k, got[k], ref[k]))
     return out
 
 
-def check_loaded(t, snap):
+def check_loaded(t, snap, base):
     out = []
     if not snap['stopped_at_start']:
         out.append('did not stop at the start address')
     if snap['pc'] != t['start']:
         out.append('PC={} expected {}'.format(snap['pc'], t['start']))
+    if base is not None and snap['sp'] != base['sp']:
+        out.append('SP={} but {} under the default configuration'.format(snap['sp'], base['sp']))
     for what, off, want, idx in loaded_regions(t):
         got = snap['ram'][off:off + len(want)]
         bad = [i for i in (idx if idx is not None else range(len(want))) if got[i] != want[i]]
@@ -652,68 +703,65 @@ def check_loaded(t, snap):
     return out
 
 
-def optid(o):
-    return ','.join('{}={}'.format(k, v) for k, v in o.items() if v != OPT_DEFAULT[k]) or 'default'
-
-
-def run_group(tname, group, seed, stats=None, only=None):
-    """Load the tape under every configuration of one group; returns list of (opts, details)."""
+def run_item(tname, ref_o, others, seed, stats=None):
+    """Returns list of (options, kind, details)."""
     d = tools.workdir()
     t = build_tape(tname, seed, d)
     bad = []
-    ref = None
-    ref_o = None
-    for n, o in enumerate(group):
-        if only is not None and n and o != only:
-            continue
-        snap, msg, argv = load_tape(t, o, d, 'x')
+
+    def load(o):
+        snap, msg, argv = load_tape(t, o, d)
         if stats is not None:
-            stats.evaluations += 1
             stats.transitions += 1
-            stats.traces += 1
             stats.counters['tape_' + tname] += 1
             for k in o:
                 if o[k] != OPT_DEFAULT[k]:
                     stats.counters['opt_{}'.format(k)] += 1
+            if snap is not None:
+                stats.state((tname, snap['simulator_T'], snap['r'], snap['pc'], snap['sp'], core.h64(snap['ram'])))
+        if snap is None:
+            bad.append((o, 'load', [msg]))
+        return snap
+    base = load(OPT_DEFAULT)        # gives the SP every configuration must end with
+    if base is None:
+        return bad
+    ref = base if ref_o == OPT_DEFAULT else load(ref_o)
+    todo = list(others)
+    if not others or ref_o == OPT_DEFAULT:
+        det = [] if ref is None else check_loaded(t, ref, base)
+        if det:
+            bad.append((ref_o, 'loaded-data', det))
+    if stats is not None:
+        stats.evaluations += 1
+        stats.traces += 1
+        stats.nontriv((tname, optid(ref_o)))
+    for o in todo:
+        snap = load(o)
+        if stats is not None:
+            stats.evaluations += 1
+            stats.traces += 1
             stats.nontriv((tname, optid(o)))
         if snap is None:
-            bad.append((o, [msg]))
             continue
-        if stats is not None:
-            stats.state((tname, snap['tstates'], snap['r'], snap['pc'], snap['sp'], core.h64(snap['ram'])))
-        det = check_loaded(t, snap)
-        if n == 0:
-            ref, ref_o = snap, o
-            sp_ref = snap['sp']
-        elif ref is not None:
-            det += ['vs {}: {}'.format(optid(ref_o), x) for x in cmp_full(ref, snap)]
+        det = check_loaded(t, snap, base)
         if det:
-            bad.append((o, det))
-    return bad, ref
+            bad.append((o, 'loaded-data', det))
+        if ref is not None:
+            det = cmp_full(ref, snap)
+            if det:
+                bad.append((o, 'neutral-option', ['differs from {}: {}'.format(optid(ref_o), x) for x in det]))
+    return bad
 
 
 def _tape_shard(stats, shard, nshards, tier, seed):
-    work = []
-    names = TAPES if tier == 'thorough' else TAPES[:3]
-    for tname in names:
-        for group in tape_groups(tier, tname):
-            # split big groups so that shards stay balanced: the first member is the group's reference
-            ref = group[0]
-            rest = group[1:]
-            if not rest:
-                work.append((tname, [ref]))
-            for j in range(0, len(rest), 6):
-                work.append((tname, [ref] + rest[j:j + 6]))
-    # slowest first would unbalance the fixed index->shard map; keep the enumeration order
-    sps = {}
-    for i, (tname, group) in core.shard_iter(work, shard, nshards):
-        bad, ref = run_group(tname, group, seed, stats)
-        for o, det in bad:
-            stats.violation('tape/{}/{}'.format(tname, optid(o)), {'level': 'tape', 'tape': tname, 'group': group, 'opts': o, 'seed': seed},
-                            '; '.join(det[:4]), tags=dict({'level': 'tape', 'tape': tname, 'kind': 'neutral-option' if any('vs ' in x for x in det) else 'loaded-data'}, **{k: o[k] for k in o}),
-                            order=2 * 10 ** 9 + i)
+    for i, (tname, ref_o, others) in core.shard_iter(tape_work(tier), shard, nshards):
+        for o, kind, det in run_item(tname, ref_o, others, seed, stats):
+            tags = {'level': 'tape', 'tape': tname, 'kind': kind, 'fields': sorted({x.split(': ')[-1].split('=')[0].split(' ')[0] for x in det})}
+            tags.update(o)
+            stats.violation('tape/{}/{}'.format(tname, optid(o)), {'level': 'tape', 'tape': tname, 'ref': ref_o, 'opts': o, 'seed': seed},
+                            '; '.join(det[:4]), tags=tags, order=2 * 10 ** 9 + i)
         if i % 9 == 0:
-            stats.sample({'level': 'tape', 'tape': tname, 'reference': optid(group[0]), 'compared': [optid(o) for o in group[1:]]})
+            stats.sample({'level': 'tape', 'tape': tname, 'reference': optid(ref_o), 'compared': [optid(o) for o in others]})
     return stats
 
 
@@ -737,14 +785,17 @@ def run(tier, seed):
     meta = dict(
         rule='loop level: each of the {} ACCELERATORS rows x counter 0..255 x next-edge distance ({}) x EAR register bit x tape polarity x carry, '
              'each run 4 ways (Python/C x accelerator on/off); DEC A: 256 A x carry x accelerate-dec-a 0..3 x JR/JP form x IFF 0/1, Python and C; '
-             'tape level: tapes {} x simulated-LOAD option deviations d <= {} over accelerator {{auto,none,rom,speedlock,"alkatraz,rom"}}, '
+             'tape level: tapes {} x simulated-LOAD options ({}) over accelerator {{auto,none,rom,speedlock,"alkatraz,rom"}}, '
              'accelerate-dec-a 0..3, pause, fast-load, cmio, python, polarity, first-edge {{0,1000}}.  states = distinct final (PC, counter, T, '
              'edge index) per row / distinct final snapshots; non-trivial = loop case in which the accelerator fired for at least one counter value, '
              'every DEC A case, every tape load'.format(
-                 len(ACCELERATORS), '{k*loop_time+e: k 0..3, e -1,0,1}, half-period offsets, far' if tier == 'quick' else 'every value -1..3*loop_time+1, far',
-                 list(TAPES if tier == 'thorough' else TAPES[:3]), 2 if tier == 'quick' else 3),
+                 len(ACCELERATORS), '{k*loop_time+e: k 0..3, e -1,0,1}, far; EAR phase = register bit, or tape polarity for the loops without one' if tier == 'quick' else
+                 'every value -1..2*loop_time+1, {3*loop_time+e}, far; EAR register bit x tape polarity',
+                 [t for t, d in tape_plan(tier)], 'deviations d <= 2 from the defaults' if tier == 'quick' else
+                 'full product on k48 and turbo, deviations d <= 2 on k48clear and k128'),
         exhaustive=True,
-        bound='loop level: complete product (finite); tape level: option deviations d <= {}'.format(2 if tier == 'quick' else 3),
+        bound='loop level: complete product (finite); tape level: ' + ('option deviations d <= 2 on 3 tapes' if tier == 'quick' else
+                                                                         'full option product (1280 configurations) on 2 tapes, d <= 2 on 2 more'),
         assumptions=[
             'loops are entered at their first instruction only, with the exit paths (wild-card bytes, RET targets) leading to the stop address - the phase real loaders are in',
             'every loop-level run has a horizon of {} T-states (LoadTracer timeout) and a 20 s watchdog'.format(HORIZON_T),
@@ -784,5 +835,5 @@ def replay(case):
         finally:
             sys.stdout = old
         return ['{} accelerate-dec-a={}: {}'.format(k, a, d) for k, a, d in bad]
-    bad, ref = run_group(case['tape'], case['group'], case.get('seed', 0), only=case['opts'])
-    return ['{}: {}'.format(optid(o), '; '.join(det)) for o, det in bad if o == case['opts']]
+    bad = run_item(case['tape'], case['ref'], [case['opts']] if case['opts'] != case['ref'] else [], case.get('seed', 0))
+    return ['{} [{}]: {}'.format(optid(o), kind, '; '.join(det)) for o, kind, det in bad if o == case['opts']]
